@@ -4,7 +4,7 @@
    What the real BLS library answers for every signature entry (valid / well-formed but not
    verifying / undecodable) is an input of the model; verifySignatures stops the mint at the first
    unique entry (in id order) that has an empty id, an unknown authorizer, a Verify error or a
-   signature that does not verify. (Before commit 126e504 of /repo a (false, nil) answer ended the
+   signature that does not verify. (Before commit d31413f of /repo a (false, nil) answer ended the
    verification as passed; the oracle signature C18:invalid-signature-accepted stands for that
    defect and must not fire any more.) *)
 From ZC Require Import Model.ZcnMint Proof.ZcnMint.
